@@ -17,15 +17,16 @@ var defectKinds = []string{
 	"rule-violating-types", "allof-missing", "mutual-bad-types", "duplicate-operation-ids", "duplicate-paths",
 	"similar-paths", "path-bad-user-types", "undefined-types-many-types", "undefined-macros", "bad-enum-bodies",
 	"request-without-body", "response-without-body", "headers-not-object",
-	"empty-path-parameter", "repeated-path-parameter",
+	"empty-path-parameter", "repeated-path-parameter", "path-parameters-redefined",
+	"duplicate-types-other-notation",
 }
 
 // defectGroups: kinds that are detected in the same phase of the builder.
 var defectGroups = [][]string{
 	{"request-without-body", "response-without-body", "headers-not-object"},                      // validateCatalog (last phase)
 	{"self-pasting-macros", "undefined-macros", "duplicate-macros"},                               // macro collection / paste
-	{"duplicate-types", "undefined-types-many-types", "rule-violating-types", "mutual-bad-types", "allof-missing", "undefined-enums"}, // user types
-	{"duplicate-paths", "similar-paths", "path-extra-props", "path-bad-user-types"},                // paths
+	{"duplicate-types", "duplicate-types-other-notation", "undefined-types-many-types", "rule-violating-types", "mutual-bad-types", "allof-missing", "undefined-enums"}, // user types
+	{"duplicate-paths", "similar-paths", "path-extra-props", "path-bad-user-types", "path-parameters-redefined"}, // paths
 	{"empty-path-parameter", "repeated-path-parameter"},                                            // path parameters of Path-less directives
 	{"undefined-tags", "duplicate-tags", "duplicate-servers", "duplicate-operation-ids", "duplicate-enums", "bad-enum-bodies"},
 }
@@ -51,6 +52,13 @@ func defectBlock(kind string, n int, r *Rand) string {
 	case "duplicate-types":
 		for i := 0; i < k; i++ {
 			fmt.Fprintf(&sb, "TYPE @dupT%d_%d\n  {\"a\": 1}\nTYPE @dupT%d_%d\n  {\"b\": 2}\n", n, i, n, i)
+		}
+	case "duplicate-types-other-notation":
+		// the same name declared with two different schema notations (jsight / regex / any / empty)
+		nots := [][2]string{{" regex\n  /ab+/", "\n  {\"a\": 1}"}, {"\n  {\"a\": 1}", " regex\n  /ab+/"}, {"\n  {\"a\": 1}", " any"}, {" any", " regex\n  /x/"}, {" regex\n  /x/", " any"}, {" any", "\n  [1]"}}
+		for i := 0; i < k; i++ {
+			p := nots[(n+i)%len(nots)]
+			fmt.Fprintf(&sb, "TYPE @dupN%d_%d%s\nTYPE @dupN%d_%d%s\n", n, i, p[0], n, i, p[1])
 		}
 	case "duplicate-enums":
 		for i := 0; i < k; i++ {
@@ -101,6 +109,8 @@ func defectBlock(kind string, n int, r *Rand) string {
 		for i := 0; i < k; i++ {
 			fmt.Fprintf(&sb, "ENUM @be%d_%d\n  [\"a\", \"a\"]\n", n, i)
 		}
+	case "path-parameters-redefined":
+		fmt.Fprintf(&sb, "URL /zpd%d/{x}/b/{y}\n  Path\n    {\"x\": 1, \"y\": 2}\n  GET\n    200 any\nGET /zpd%d/{x}/b/{y}/c/{z}\n  Path\n    {\"x\": 3, \"y\": 4, \"z\": 5}\n  200 any\n", n, n)
 	case "empty-path-parameter":
 		fmt.Fprintf(&sb, "GET /zep%d/{}\n  200 any\n", n)
 	case "repeated-path-parameter":
